@@ -129,7 +129,10 @@ def r1_castling(ctx):
             ok = a[3] == ("param", 3) and a[4] == ("param", 4) and fold(a[5]) == king and fold(a[6]) == cm and fold(a[2]) == 0
         except (Unfoldable, IndexError):
             ok = False
-    ctx.ob(rid, "make_castle_move|passes-king-squares-and-flag", ok, "" if ok else "make_castle_move builds %s" % (show(t) if t else "?"), ctx.where(g))
+    if not t:
+        ctx.lost(rid, "the call of make_move in make_castle_move (one straight-line call expected)")
+    else:
+        ctx.ob(rid, "make_castle_move|passes-king-squares-and-flag", ok, "" if ok else "make_castle_move builds %s" % (show(t) if t else "?"), ctx.where(g))
 
 
 def gen_calls(ctx, key, rid):
@@ -244,10 +247,17 @@ def r3_promotions(ctx):
     g = ctx.fn(rid, BB + "generate_pawn_promotion")
     try:
         gp = returning_paths(g)
-        t = [tt for b, tt in gp[0].calls if tt[0] == "call" and tt[1] == BB + "make_move"][0]
+        cs = [tt for b, tt in gp[0].calls if tt[0] == "call" and tt[1] == BB + "make_move"] if len(gp) == 1 else []
+    except NotLoopFree:
+        cs = []
+    if len(cs) != 1 or len(cs[0][2]) < 9:
+        ctx.lost(rid, "the call of make_move in generate_pawn_promotion (one straight-line call with nine arguments expected)")
+        return
+    try:
+        t = cs[0]
         pawn = prog.const_value("inkayaku_board::board::constants::PAWN")
         ok = t[2][3] == ("param", 3) and t[2][4] == ("param", 4) and fold(t[2][5]) == pawn and t[2][8] == ("param", 5) and fold(t[2][2]) == 0
-    except (NotLoopFree, IndexError, Unfoldable):
+    except (IndexError, Unfoldable):
         ok = False
     ctx.ob(rid, "promotion-move", ok, "" if ok else "generate_pawn_promotion does not build (source, target, PAWN, promote_to) unfiltered", ctx.where(g))
 
